@@ -7,8 +7,8 @@ from dimod.variables import Variables
 import wlib
 from wlib import clist, cnat, cz, cbool, copt, cpair
 
-# -1/-2 are distinct labels with equal CPython hashes; so are the tuples (-1,)/(-2,)
-ALPHABET = [0, 1, 2, 3, 4, 5, 6, 9, -1, -2, 'a', 'b', 'c', 'd', ('t', 1), ('t', 2), (-1,), (-2,), 1.5]
+# -1/-2 and 0/2**61-1 are pairs of distinct labels with equal CPython hashes; so are the tuples (-1,)/(-2,)
+ALPHABET = [0, 1, 2, 3, 4, 5, 6, 9, -1, -2, 2**61 - 1, 2**40, 'a', 'b', 'c', 'd', ('t', 1), ('t', 2), (-1,), (-2,), 1.5]
 ALIASES = {1: [1.0, 'np1'], 2: [2.0], 3: ['np3'], 0: [0.0]}
 
 
